@@ -22,9 +22,11 @@
 
    Choices of this reference where the property text is silent (they follow the documented or evident
    behaviour of the code and are visible here rather than hidden in the model):
-   * find(x, start) and token(char, start) answer "not found" / the empty token whenever start >= length(),
-     also for an empty needle ([find_from], [s_token]); token(set, start) is only specified for
-     start <= length() (the code reads at str + start).
+   * find(x, start) answers "not found" whenever start > length(); at start = length() the empty needle (and nothing
+     else) is found there, as in every reference byte string ([find_from]; round 5, fix 10 - before, the code
+     refused start = length() also for the empty needle).  token(char, start) answers the empty token whenever
+     start >= length() ([s_token]); token(set, start) is only specified for start <= length() (the code reads at
+     str + start).
    * attach(str, len) is specified for off + len < |buffer| STRICTLY: one more byte of foreign memory must
      be readable behind the window, because the C-string view inspects str[len] before deciding to copy.
    * resize(n) beyond length() is the composite "resize, then write the n - length() exposed bytes
@@ -108,7 +110,9 @@ Inductive op :=
 | OFromCStr (l : list Z)                         (* ... with fromCString(str), str a C string *)
 | OFromCStrN (l : list Z) (n : nat)              (* ... with fromCString(str, n), str a buffer of at least n bytes *)
 | OToBool (v : nat)
-| OChar (q : cquery) (c : Z).                    (* toLowerCase(c), toUpperCase(c), isSpace(c), isAlpha(c), ... *)
+| OChar (q : cquery) (c : Z)                     (* toLowerCase(c), toUpperCase(c), isSpace(c), isAlpha(c), ... *)
+(* round 5: the prepend counterpart of OAppendOwn *)
+| OPrependOwn (v off len : nat).                 (* v.prepend(p + off, len), p = the C-string view of v itself *)
 
 (* ---- pure reference functions ---- *)
 Definition is_byte (b : Z) : bool := (0 <=? b) && (b <? 256).
@@ -164,9 +168,11 @@ Definition P_chr (c : Z) (suffix : list Z) : bool := match suffix with x :: _ =>
 Definition P_any (cs : list Z) (suffix : list Z) : bool := match suffix with x :: _ => memb x cs | [] => false end.
 
 Definition oidx (o : option nat) : Z := match o with Some i => Z.of_nat i | None => -1 end.
-(* search in the suffix from [start]; result as offset in the whole string *)
+(* search in the suffix from [start]; result as offset in the whole string.  A start behind the end finds nothing; at
+   start = length() the suffix is the empty string, in which only the empty needle occurs (what every reference byte
+   string answers: std::string::find, bytes.find, strstr on the terminator) *)
 Definition find_from (P : list Z -> bool) (l : list Z) (start : nat) : Z :=
-  if (length l <=? start)%nat then -1
+  if (length l <? start)%nat then -1
   else match find_first P (skipn start l) with Some i => Z.of_nat (start + i) | None => -1 end.
 
 (* replace every non-overlapping occurrence, left to right; an empty needle occurs nowhere *)
@@ -329,7 +335,7 @@ Definition pre (s : sstate) (o : op) : bool :=
   | OFindCFrom v c _ => has s v && is_byte c && negb (c =? 0) && cbytes (valof s v)
   | OFindS v l | OFindOneOf v l | OFindLastS v l | OFindLastOf v l | OFindSFrom v l _ | OFindOneOfFrom v l _ =>
       has s v && cbytes l && cbytes (valof s v)
-  | OAppendOwn v off len => has s v && (off + len <=? length (valof s v))%nat
+  | OAppendOwn v off len | OPrependOwn v off len => has s v && (off + len <=? length (valof s v))%nat
   | OPrintfSelf v a b => has s v && cbytes a && cbytes b && cbytes (valof s v)
   | OEqLit v l => has s v && cbytes l
   | OSplitSet v seps _ => has s v && cbytes seps && cbytes (valof s v)
@@ -419,6 +425,7 @@ Definition spec_exec (s : sstate) (o : op) : sstate * out :=
   | OFromCStrN l n => (pushval s (firstn n l), RNone)
   | OToBool v => (s, RInt (b2z (s_tobool (valof s v))))
   | OChar q c => (s, RInt (s_char q c))
+  | OPrependOwn v off len => (setval s v (slice (valof s v) off len ++ valof s v), RNone)
   end.
 
 Definition spec_step (s : sstate) (o : op) : option (sstate * out) :=
@@ -437,4 +444,32 @@ Fixpoint spec_run (s : sstate) (ops : list op) : option (sstate * list out) :=
       | Some (s2, rs) => Some (s2, r :: rs)
       end
     end
+  end.
+
+(* ---- round 5: default arguments ----
+   String.hpp declares  trim(const char* chars = " \t\r\n\v"),  substr(ssize start, ssize length = -1)  and
+   split(tokens, separators, bool skipEmpty = true)  (List and HashSet).  A call that leaves the argument out is the
+   call with the declared value: the abbreviations below are what the operations "trimd", "substrd", "splitd",
+   "splitsetd" of the harness (s.trim(), s.substr(start), s.split(list, seps), s.split(set, seps)) mean.  They are
+   instances of OTrim / OSubstr / OSplit / OSplitSet, so every theorem about all histories covers them. *)
+Definition trim_default : list Z := [32; 9; 13; 10; 11].           (* blank \t \r \n \v *)
+Definition OTrimD (v : nat) : op := OTrim v trim_default.
+Definition OSubstrD (v : nat) (start : Z) : op := OSubstr v start (-1).
+Definition OSplitD (v : nat) (seps : list Z) : op := OSplit v seps true.
+Definition OSplitSetD (v : nat) (seps : list Z) : op := OSplitSet v seps true.
+
+(* ---- round 5: what of a result the PROPERTY TEXT constrains ----
+   The text lists the operations (construction, attach, append/prepend, assignment, resize/reserve, replace, case
+   mapping, trim, substr, token/split/join, printf) and the queries (length, comparison, search, prefix/suffix,
+   the C-string view).  toBool and the character classifiers isSpace ... isHexDigit are not among them: their
+   reference functions [s_tobool] / [s_char] describe the code as it is, the refinement theorem proves the model
+   equal to them, and model and implementation are compared on them (correspondence), but a different answer is not
+   a violation of the property.  [seen s o r] is the property-level observation of result r of operation o run in
+   state s: None = the text does not say. *)
+Definition classifier (q : cquery) : bool := match q with CLower | CUpper => false | _ => true end.
+Definition seen (s : sstate) (o : op) (r : out) : option out :=
+  match o with
+  | OToBool _ => None
+  | OChar q _ => if classifier q then None else Some r
+  | _ => Some r
   end.
